@@ -1,6 +1,6 @@
 (* Props/C14.v — property C14: built-in reports state exactly the facts of the event stream (structure). *)
 From CV Require Import Model.Base Model.Events Model.Contract Model.Stats Model.StatsSpec Model.Reporters Model.ReportersSpec Proofs.BaseP Proofs.ReportersP Proofs.ReportersP2 Proofs.ReportersP3.
-From CV Require Model.ReportersSpec2 Proofs.ReportersP6.
+From CV Require Model.ReportersSpec2 Proofs.ReportersP6 Model.ReportersSpec3 Proofs.ReportersP7 Model.AttemptSpec Model.Attempt.
 From CV Require Proofs.ReportersP4 Proofs.ReportersP5 Proofs.Compose Proofs.SchedP4 Proofs.SchedP7 Model.Sched.
 From Coq Require Import Lia.
 
@@ -304,3 +304,60 @@ Example C14_attribution_is_discriminating :
   ReportersSpec2.c14_basic_attr_ok ReportersP6.ex_w ReportersP6.w_basic = false /\
   ReportersSpec2.c14_junit_attr_ok ReportersP6.ex_w ReportersP6.w_junit = false.
 Proof. vm_compute. repeat split; reflexivity. Qed.
+
+
+(* ---------- THE JUNIT CLASSIFICATION AGAINST AN INDEPENDENT SPECIFICATION (review finding M2) ----------
+   `attempt_outcomes` above classifies with the reporter's own `junit_status` (the last relevant event decides).
+   `ReportersSpec3.attempt_class_spec` reads like the property: failure if the attempt's events contain a Failed step or a
+   Failed hook, else skipped if they contain a Skipped step, else success. On the events of a canonical attempt (the C02
+   shape, logs allowed) BEFORE its Finished the two agree — and only there: on the list WITH the Finished event
+   `junit_status` is always 0 (the real writer, like the model, never stores Finished), and on non-canonical lists they differ. *)
+Theorem C14_junit_status_is_the_class_of_a_canonical_attempt :
+  forall evs, ReportersSpec3.canonical_attempt (evs ++ [ScFinished]) = true ->
+    junit_status evs = ReportersSpec3.attempt_class_spec evs.
+Proof. exact ReportersP7.junit_status_is_the_class_canonical. Qed.
+Print Assumptions C14_junit_status_is_the_class_of_a_canonical_attempt.
+
+(* ... for every execution of the attempt model, no hypothesis *)
+Theorem C14_junit_status_of_every_model_attempt :
+  forall i, junit_status (removelast (Attempt.ao_events (Attempt.run_attempt i)))
+            = ReportersSpec3.attempt_class_spec (Attempt.ao_events (Attempt.run_attempt i)).
+Proof. exact ReportersP7.junit_status_of_run_attempt. Qed.
+Print Assumptions C14_junit_status_of_every_model_attempt.
+
+Theorem C14_junit_cases_are_the_attempts_classified :
+  forall es, normalized es = true -> ReportersSpec3.attempts_canonical es = true ->
+    junit_cases (junit_doc es) false = ReportersSpec3.attempt_outcomes_spec es /\
+    map (fun c => snd (fst c)) (junit_cases (junit_doc es) true)
+    = flat_map (fun e => match e with EvParseErr i => [i] | _ => [] end) (before_finished es).
+Proof. exact ReportersP7.C14_junit_cases_are_the_attempts_classified. Qed.
+Print Assumptions C14_junit_cases_are_the_attempts_classified.
+
+Theorem C14_junit_end_to_end_classified :
+  forall es : list mev,
+    contract (ReportersP5.raw_of es) = true ->
+    ReportersP5.rule_of_scen_unique (ReportersP5.raw_of es) = true ->
+    ReportersSpec3.attempts_canonical (ReportersP5.raw_of es) = true ->
+    forallb (fun o => negb (snd o =? 2)) (ReportersSpec3.attempt_outcomes_spec (ReportersP5.raw_of es)) = true ->
+    ReportersSpec3.c14_junit_ok3 (ReportersP5.raw_of es) (junit_doc (ReportersP5.ns_of es)) = true.
+Proof. exact ReportersP7.C14_junit_end_to_end_classified. Qed.
+Print Assumptions C14_junit_end_to_end_classified.
+
+(* ---------- CUCUMBER JSON: THE EXACT STATUS AND THE PASSED HOOKS (review finding H4, last part) ----------
+   `json_facts` collapses the report statuses failed / undefined / ambiguous and ignores passed hooks: a document showing
+   the panicked step as "ambiguous" plus two passed hooks that never ran satisfies `c14_json_ok`. The finer facts carry
+   the status code the report must show (passed 0, failed 1, skipped 2, undefined 3, ambiguous 4) and passed hooks. *)
+Theorem C14_json_whole_document_exact_statuses :
+  forall has_path es,
+    normalized es = true -> fids_nonzero es = true -> fids_have_path has_path es = true ->
+    ReportersSpec3.c14_json_ok2 es (json_doc has_path es) = true.
+Proof. exact ReportersP7.c14_json_normalized2. Qed.
+Print Assumptions C14_json_whole_document_exact_statuses.
+
+Theorem C14_json_end_to_end_exact_statuses :
+  forall (es : list mev) has_path,
+    contract (ReportersP5.raw_of es) = true ->
+    fids_nonzero (ReportersP5.raw_of es) = true -> fids_have_path has_path (ReportersP5.raw_of es) = true ->
+    ReportersSpec3.c14_json_ok2 (ReportersP5.raw_of es) (json_doc has_path (ReportersP5.ns_of es)) = true.
+Proof. exact ReportersP7.C14_json_end_to_end2. Qed.
+Print Assumptions C14_json_end_to_end_exact_statuses.
